@@ -24,12 +24,14 @@ def main():
     K = 20.0
     adaptive = [c for c in I.explicit_methods() + I.implicit_methods() if not issubclass(c, I.ExplicitSymplecticIntegrator) and np.asarray(c.tableau_final).shape[0] == 2]
     names = [c.__name__ for c in adaptive]
-    tols = [1e-3, 1e-6, 1e-9] if req["tier"] == "quick" else [1e-3, 1e-5, 1e-7, 1e-9, 1e-11]
+    tols = [1e-3, 1e-8] if req["tier"] == "quick" else [1e-3, 1e-5, 1e-7, 1e-9, 1e-11]
     mats = [np.array([[-0.5, 2.0], [-2.0, -0.5]]), np.array([[0.0, 1.0], [-1.0, 0.0]]), np.array([[-1.0, 0.3], [0.1, -2.0]])]
+    if req["tier"] == "quick":
+        mats = mats[:2]
     for cls in adaptive:
         for A in mats:
             for tol in tols:
-                for (t0, tf) in ((0.0, 2.0), (0.0, -1.5), (3.0, 1.0)):
+                for (t0, tf) in (((0.0, 2.0), (3.0, 1.0)) if req["tier"] == "quick" else ((0.0, 2.0), (0.0, -1.5), (3.0, 1.0))):
                     for dt0 in ((1e-4, 5.0) if req["tier"] == "quick" else (1e-4, 0.1, 5.0)):
                         if cls.__name__.startswith("Radau") and tol < 1e-8:
                             continue
